@@ -14,7 +14,9 @@ MANIFEST = {
             "export printer.VerifQueue) on exhaustive small and random queues/operation sequences. NOT proved, covered by search only: that writing a comment "
             "keeps its text intact and separate from neighbouring tokens, that the parser collects every comment, import sorting. Search: real format.Source on "
             "every corpus file / embedded test program / generated program, as is and with a uniquely numbered comment inserted at token boundaries "
-            "(11 styles: //, /* */, multi-line, #, own-line, doc groups, adjacent pairs), comparing scanner-level comment sequences of input and output.",
+            "(14 styles: //, /* */, multi-line, #, own-line, doc groups, adjacent pairs, and randomly shaped multi-line block comments covering "
+            "stripCommonPrefix: lines of stars, bullets, space/tab/mixed indentation, blank lines, closing */ alone or after text, less/more indented, CRLF), "
+            "plus an exhaustive enumeration of block-comment shapes x 5 hosts, comparing scanner-level comment sequences of input and output.",
     "note": "trusted: Lean kernel; the translator's reading of printer/*.go (fact extraction by go/ast); the verif-tagged export printer/verif_queue.go "
             "(mimics printNode's `p.nextComment()` and fprint's final flush, both shapes checked by the translator); the harness' comment normalisation "
             "(trailing white space per line, leading white space of continuation lines of /*-comments, CR) and its import-sort exemption "
@@ -29,7 +31,7 @@ MAX_KEYS = 6
 RULE = ("queue differential: all op lists up to length 2 (thorough 3) over 6 positions x impliedSemi for 7 queue shapes + random queues (0-6 groups, "
         "0-3 comments each, four comment styles, sorted and unsorted offsets, empty groups, positions incl. infinity, print/sizeBefore/before ops); "
         "search: every parsing file of the tree (.xgo .gox .go .spx .gmx .gsh ...), every raw-string test program embedded in *_test.go, generated XGo programs; "
-        "as is + all-boundaries block-comment variant + single insertions (quick: sampled; thorough: every boundary x 10 styles, sources <= 1200 bytes first and completely, "
+        "720 (thorough 18k) enumerated multi-line block-comment shapes x 5 hosts; as is + all-boundaries block-comment variant + single insertions (30 % of the quick samples use random rich block comments) (quick: sampled; thorough: every boundary x 13 styles, sources <= 1200 bytes first and completely, "
         "the rest in random order until the 11 min budget ends); a case counts as non-trivial if the formatted source contains >= 1 comment / the queue has >= 1 comment and >= 1 op")
 
 
